@@ -70,32 +70,69 @@ def h3_extwire():
 
 
 def h4_surgery():
-    def inst(mode, n, cal):
-        return {"label": "m%d_n%d_cal%d" % (mode, n, cal), "defines": ["MODE=%d" % mode, "NCH=%d" % n, "HAS_CAL=%d" % cal]}
-    q = [inst(0, 3, 1), inst(0, 3, 0), inst(1, 3, 1), inst(2, 3, 1), inst(2, 2, 0), inst(0, 1, 1), inst(0, 0, 0)]
+    def inst(mode, n, cal, fail=-1):
+        d = {"label": "m%d_n%d_cal%d" % (mode, n, cal) + ("_fail%d" % fail if fail >= 0 else ""), "defines": ["MODE=%d" % mode, "NCH=%d" % n, "HAS_CAL=%d" % cal, "CONSTRUCT_FAIL_AT=%d" % fail]}
+        return d
+    q = [inst(0, 3, 1), inst(0, 3, 0), inst(1, 3, 1), inst(2, 3, 1), inst(2, 2, 0), inst(0, 1, 1), inst(0, 0, 0), inst(0, 3, 1, 0), inst(0, 2, 0, 0), inst(2, 2, 1, 1)]
     t = q + [inst(0, 4, 1), inst(0, 4, 0), inst(1, 4, 1), inst(2, 4, 1), inst(2, 4, 0), inst(0, 5, 1), inst(2, 5, 1)]
     return {
         "name": "h4_surgery", "src": "h4_surgery.c",
         "env": ["ctx", "hash_model", "list_wrap", "fmt_stub"],
         "tus": ["tlv", "signature", "hashchain", "hash", "verification", "policy", "types_base", "tlv_element", "fast_tlv"],
-        "unwind": 8, "unwindset": ["KSI_TLV_free.0:3", "KSI_List_free.0:8"], "object_bits": 12, "timeout": 300, "mem_gb": 8,
+        "unwind": 8, "unwindset": ["KSI_TLV_free.0:3", "KSI_List_free.0:8"], "object_bits": 12, "timeout": 400, "mem_gb": 8,
         "restrict_fp": ["KSI_Signature_replacePublicationRecord.function_pointer_call.1/removeCalAuthAndPublication"],
         "functions": ["replaceCalendarChain", "removeCalAuthAndPublication", "KSI_SignatureBuilder_applyCalendarHashChain", "KSI_Signature_replacePublicationRecord",
                       "KSI_TLV_replaceNestedTlv", "KSI_TLV_appendNestedTlv", "KSI_TLV_getNestedList", "KSI_SignatureBuilder_open"],
         "bound": "signature element with 0..3 children (thorough up to 5) whose 13-bit tags are all symbolic, with / without calendar chain; symbolic presence of an old publication "
-                 "record / calendar authentication record object; KSI_TlvTemplate_construct stubbed with a symbolic status",
+                 "record / calendar authentication record object; KSI_TlvTemplate_construct stubbed (succeeds, or the first / second call fails, per instance)",
         "instances": q,
         "thorough": {"instances": t, "timeout": 1500},
+    }
+
+
+def h3_async_ext():
+    insts = [{"label": "cal%d_pub%d" % (c, p), "defines": ["HAS_CAL=%d" % c, "HAS_PUB=%d" % p]} for c in (1, 0) for p in (0, 1)]
+    insts += [{"label": "missing%d" % m, "defines": ["MISSING=%d" % m]} for m in (1, 2, 3)]
+    return {
+        "name": "h3_async_ext", "src": "h3_async_ext.c",
+        "env": ["ctx", "list_wrap", "fmt_stub"],
+        "tus": [],
+        "unwind": 4, "object_bits": 10, "timeout": 120, "mem_gb": 8,
+        "functions": ["KSI_AsyncHandle_getSignature", "createExtendedSignature"],
+        "bound": "one extending handle (source signature with / without calendar chain, with / without publication record; request, source or reply missing); callees outside "
+                 "net_async.c are stubs with symbolic status",
+        "instances": insts,
     }
 
 
 def plan():
     return {
         "property": "C08",
-        "outside": "TODO",
-        "assumptions": [],
-        "manifest": {"claimed": True, "level_text": "TODO", "level_note": "TODO"},
-        "harnesses": [h1_extverify(), h2_compat(), h3_extwire(), h4_surgery()],
+        "outside": "the transports, MAC verification of the reply (C06), request / reply serialization and parsing (C09/C10), internal verification of the extended signature "
+                   "(C01/C02: input hash = aggregation root, times, publication record) - here a gate with a symbolic verdict; calendar chains longer than 3 (thorough 5) links; signature "
+                   "elements with more than 3 (thorough 5) children; KSI_Signature_clone / KSI_TLV_clone (the builder works on a clone: shown as 'opened from the source signature', the clone "
+                   "function itself is C11's subject)",
+        "assumptions": ["callee stubs return an arbitrary status and, on KSI_OK, set their out-parameter",
+                        "representation invariant of a parsed signature: its element has a 0x802 child exactly when the object has a calendar chain, and at most one (template: single, optional)",
+                        "KSI_TlvTemplate_construct (typed object -> TLV content) is a stub in the surgery harness"],
+        "manifest": {
+            "claimed": True,
+            "level_text": "Bounded symbolic execution (CBMC) of the real types.c / hashchain.c / signature.c / signature_builder.c / net_async.c / tlv.c / list.c code. (H1) "
+                          "KSI_ExtendResp_verifyWithRequest: KSI_OK implies request present, status zero (absent = 0), 64-bit ids present and equal, chain present, requested publication time "
+                          "equal, aggregation time equal and shape-derived time equal; a matching reply with status 0 is accepted; non-zero status -> KSI_SERVICE_* error - for all 64-bit values, "
+                          "each optional member present / absent, shape computation stubbed and real (chains of 1..3 links, thorough 5). (H2) KSI_CalendarHashChain_verifyCompatibilityTo == "
+                          "(same aggregation time with publication-time fallback, same input hash, identical sequence of right-link imprints) for all chains of 0..3 x 0..3 links (thorough 4), all "
+                          "directions and imprints. (H3) blocking extendTo / extend (with, without publication record) and asynchronous createExtendedSignature with callees stubbed: for ALL callee "
+                          "outcomes success implies every gate (send, perform, MAC-gated response, verifyWithRequest, chain fetch, clone of the source, compatibility with the old chain, apply, close, "
+                          "publication handling, final verification) returned OK once, in order, on the same objects; any failure returns that status, reaches nothing later, returns no signature and "
+                          "releases what was built; the source signature object is unchanged. (H4) baseTlv surgery on elements with symbolic child tags: survivors (all 0x801) are the same objects "
+                          "in order, exactly one new 0x802 in place, no old 0x803/0x805, the supplied publication record appended last.",
+            "level_note": "Compositional: the wiring harnesses treat MAC verification, internal verification and the typed-object-to-TLV construction as gates with symbolic verdicts; 'the result "
+                          "verifies for the same document and signing time' therefore rests on C01/C02, 'the builder works on a clone' on KSI_Signature_clone (not analysed here). Found and "
+                          "reported: F-C08-1 (right-link comparison, fixed 282764a), F-C08-2 (reply without status accepted unchecked, fixed 612852d), F-C08-3 (asynchronous path lacks the "
+                          "compatibility check; open - h3_async_ext.cal1_* fail until fixed or recorded).",
+        },
+        "harnesses": [h1_extverify(), h2_compat(), h3_extwire(), h3_async_ext(), h4_surgery()],
     }
 
 
